@@ -132,6 +132,60 @@ def Prog.stepAt (p : Prog) (k : Nat) : Step :=
 def runStep (p : Prog) (k : Nat) : StepOut :=
   if p.isProducer then processStep (p.stepAt k) else processExchangeStep (p.stepAt k)
 
+/-! ### One `process()` call at collector-operation level
+
+`OutputCollector.client_log / emit / finish` (vgi_rpc/rpc/_types.py) may be called in ANY order inside one `process()`
+call; the server looks at the collector only after the call returned (`validate`, `_flush_collector`, `out.finished`).
+`collect` plays an ordered operation list against the collector's guards; `normalize` is the Engine `Step` the call
+amounts to.  Nothing in it depends on whether `finish()` came before or after `emit()` — unless `emit` refuses a finished
+collector, which the extracted `Gen.C10.emitRefusesAfterFinish` would switch on. -/
+
+inductive COp where
+  | log (l : Log)
+  | emit (b : Batch)
+  | finish
+  | raise (e : Exn)
+deriving Repr, DecidableEq
+
+structure Acc where
+  pre : List Log                  -- client logs before the data batch
+  data : Option Batch             -- `_data_batch_idx is not None`
+  post : List Log                 -- client logs after the data batch
+  fin : Bool                      -- `_finished`
+deriving Repr
+
+def onlyOneDataExn : Exn := ⟨"RuntimeError".toList, Gen.C10.onlyOneDataMsg.toList, none⟩
+def emitAfterFinishExn : Exn := ⟨"RuntimeError".toList, Gen.C10.emitAfterFinishMsg.toList, none⟩
+
+/-- run the operations up to the first exception (the state's own `raise`, or a collector guard);
+`pm` = `producer_mode`, `raf` = emit refuses a finished collector -/
+def collect (pm raf : Bool) : Acc → List COp → Acc × Option Exn
+  | a, [] => (a, none)
+  | a, .log l :: r =>
+    collect pm raf (match a.data with
+                    | some _ => { a with post := a.post ++ [l] }
+                    | none => { a with pre := a.pre ++ [l] }) r
+  | a, .emit b :: r =>
+    match a.data with
+    | some _ => (a, some onlyOneDataExn)
+    | none => if raf && a.fin then (a, some emitAfterFinishExn) else collect pm raf { a with data := some b } r
+  | a, .finish :: r => if pm then collect pm raf { a with fin := true } r else (a, some finishOnExchangeExn)
+  | a, .raise e :: _ => (a, some e)
+
+/-- the Engine step one call amounts to: on an exception the logs emitted so far and the error (the data batch of a
+failed call is never written); otherwise data / finish as the collector stands when the call returns -/
+def normalizeWith (pm raf : Bool) (ops : List COp) : Step :=
+  match collect pm raf ⟨[], none, [], false⟩ ops with
+  | (a, some e) => ⟨a.pre ++ a.post, .raise e, []⟩
+  | (a, none) =>
+    match a.data, a.fin with
+    | some b, true => ⟨a.pre, .emitFinish b, a.post⟩
+    | some b, false => ⟨a.pre, .emit b, a.post⟩
+    | none, true => ⟨a.pre, .finish, []⟩
+    | none, false => ⟨a.pre, .nothing, []⟩
+
+def normalize (pm : Bool) (ops : List COp) : Step := normalizeWith pm Gen.C10.emitRefusesAfterFinish ops
+
 structure Method where
   prog : Prog
   header : Option Nat             -- declared header (its value), `none` = the method declares no header type
